@@ -135,6 +135,14 @@ def pred_c11(case, impl, model, ctx):
 
 def gen_c12(tier, rng):
     cases = []
+    # Packet::getRawCmpHeader / getRawMessageHeader: the header bytes the encoder copies into frames
+    ops = []
+    for i in range(60 if tier == "quick" else 600):
+        p = proto.rand_packet(rng)
+        p.flags = rng.getrandbits(8)
+        p.seg = rng.choice([0, 4, 8, 12])
+        ops += [p.line("h%d" % i), "pk rawhdr h%d" % i]
+    cases.append(Case("c12h", ops, nontrivial=True, tags=("packet", "raw-headers")))
     for cname, (ctype, kind, size, default, fields) in layout.CLASSES.items():
         # default-constructed object: reserved bytes / bits zero, protocol defaults
         ops = ["fld %s default" % cname]
